@@ -113,6 +113,28 @@ def own_deps(task) -> list:
     return out
 
 
+def all_dep_instances(task) -> list:
+    """Every task *object* anywhere in the parameters (equal tasks may be present as several
+    distinct instances; each of them must be usable inside run())."""
+    out, seen = [], set()
+
+    def walk(v):
+        if is_task(v):
+            if id(v) not in seen:
+                seen.add(id(v))
+                out.append(v)
+        elif isinstance(v, (tuple, list)):
+            for x in v:
+                walk(x)
+        elif isinstance(v, (dict, frozendict)):
+            for x in v.values():
+                walk(x)
+
+    for f in FIELDS:
+        walk(getattr(task, f))
+    return out
+
+
 def ctx_view(task):
     ctx = task.context
     if ctx is None:
@@ -210,14 +232,17 @@ def _run(self):
     if WORLD.on_run is not None:
         WORLD.on_run(self)
     vals = []
-    for dep in own_deps(self):
+    seen_keys = set()
+    for dep in all_dep_instances(self):      # every instance is read, the value of each distinct dependency is used once
         try:
             v = dep.result
         except BaseException as e:
             WORLD.rec('read', k, tkey(dep), 'ERR', type(e).__name__)
             raise
         WORLD.rec('read', k, tkey(dep), 'OK', v)
-        vals.append(v)
+        if tkey(dep) not in seen_keys:
+            seen_keys.add(tkey(dep))
+            vals.append(v)
     if self.label in WORLD.faults and WORLD.fault_exc != 'filter':
         WORLD.rec('raise', k)
         if WORLD.fault_exc == 'exit':
